@@ -310,3 +310,47 @@ Example C07_nonvacuous_during :
   strictly_accepted (judge minit sinit (snd (run init ops))) = true /\
   snd (mon minit (During true 1 0 (IRead 2)) [Len 1; NoEntity; Blocked]%N) = [CL_STALL; CL_REPLY].
 Proof. vm_compute. repeat split; reflexivity. Qed.
+
+(* ---- descriptions changed after the announcement (SetDescr) ----
+   SetDescriptionString on an existing feature, at any point of the history: the tree has the new
+   text, hence every later reply and "added" notification must carry it (REPLY / NOTIFY of
+   C07_trace_accepted, whose histories contain SetDescr anywhere -- between two reads, between
+   RemoveEntity and AddEntity, while reads are pending, on entity 0). *)
+Lemma find_id_upd id g l :
+  (forall f, f_id (g f) = f_id f) -> find_id id (feats_upd_id id g l) = option_map g (find_id id l).
+Proof.
+  intros Hg. unfold find_id. induction l as [|f l IH]; simpl; [reflexivity|].
+  destruct (N.eqb (f_id f) id) eqn:E; simpl.
+  - rewrite Hg, E. reflexivity.
+  - rewrite E. exact IH.
+Qed.
+
+Theorem C07_setdescr_effect : forall s e fid d o f0,
+  assoc_N e (objs s) = Some o -> find_id fid (e_feats o) = Some f0 ->
+  snd (step s (SetDescr e fid d)) = [OkDone] /\
+  find_id fid (feats_of (fst (step s (SetDescr e fid d))) e) = Some (with_desc f0 (N.succ d)).
+Proof.
+  intros s e fid d o f0 Ho Hf. unfold step, step_gen, step_base. rewrite Ho, Hf. split; [reflexivity|].
+  unfold feats_of. simpl. rewrite assoc_upd_feats, N.eqb_refl, Ho. simpl.
+  rewrite find_id_upd by reflexivity. rewrite Hf. reflexivity.
+Qed.
+Print Assumptions C07_setdescr_effect.
+
+(* Non-vacuity: description 3 set before the first announcement (code 4 in the "added" notification and
+   in the read), changed to 7 between two reads (the second read says 8), changed to 2 between
+   RemoveEntity and AddEntity (the re-announcement says 3), unknown feature / entity object, and the
+   device classification feature of entity 0 (code 6 in the last read).  Shown: per operation the
+   (entity, feature, description) of every announced feature. *)
+Example C07_nonvacuous_setdescr :
+  let ops := [NewEntity 1 5; AddFeature 1 4 2 0 [(11, true, false, false)]%N; Subscribe 0 0; SetDescr 1 1 3; AddEntity 1; Read 1;
+              SetDescr 1 1 7; Read 1; RemoveEntity 1; SetDescr 1 1 2; AddEntity 1; SetDescr 1 9 2; SetDescr 4 1 2;
+              SetDescr 0 1 5; Read 2] in
+  let proj := fun o => match o with RFeat e id _ _ d _ _ _ => [(e, id, d)] | OkDone => [(9, 9, 9)] | _ => [] end%N in
+  skipn 3 (map (fun x => flat_map proj (snd x)) (snd (run init ops))) =
+    [[(9, 9, 9)]; [(1, 1, 4)]; [(0, 0, 0); (0, 1, 0); (1, 1, 4)]; [(9, 9, 9)]; [(0, 0, 0); (0, 1, 0); (1, 1, 8)]; [];
+     [(9, 9, 9)]; [(1, 1, 3)]; []; []; [(9, 9, 9)]; [(0, 0, 0); (0, 1, 6); (1, 1, 3)]]%N /\
+  strictly_accepted (judge minit sinit (snd (run init ops))) = true /\
+  (* an implementation still announcing the old text after SetDescr is rejected: REPLY *)
+  snd (mon (mrun minit (snd (run init (firstn 7 ops)))) (Read 1)
+           (nth 5 (map snd (snd (run init ops))) [])) = [CL_REPLY].
+Proof. vm_compute. repeat split; reflexivity. Qed.
